@@ -136,6 +136,54 @@ theorem C10_stable_read (E : Env) (w : World) (i : Nat) (n : Name) (o : Inst) (t
   unfold Inst.absorb
   simp only [hslot]
 
+/-! ### A default factory that raises (atomicity, cited by C19) -/
+
+/-- A read whose default factory / `_name_default` method raises `e` — for every
+environment, every state with nothing stored for the attribute, both default
+kinds that call user code (`callable_and_args`: `factory(*args, **kw)`;
+`callable`: `_name_default(self)`, `Tuple`/`Union` `_get_default_value`), any
+handlers registered anywhere:
+
+* the read raises `surfaced E e`, which IS `e` — except on the one path where the
+  code does not pass the exception through: an `AttributeError` makes Traits issue
+  a `UserWarning` (`_warn_on_attribute_error`, ctraits.c:1794-1838), and when the
+  warning filters turn warnings into errors that `UserWarning` (with the
+  `AttributeError` as `__cause__`) is raised instead;
+* the whole state afterwards equals the state before except for the record of
+  the factory call: nothing is stored in the slot, no handler is called, no
+  `post_setattr` runs, nothing is allocated, no notifier list changes;
+* the NEXT read (no `post_setattr` hook) calls the factory again, with the next
+  call ordinal; if this default computation succeeds with `v`, the read returns
+  `v` and stores it; if it fails again, again nothing is stored. -/
+theorem C10_default_raises (E : Env) (t : TraitCore) (s : OSt) (e : Exc)
+    (hk : t.kind = .trait) (hu : callsUser t) (hs : s.slot = none)
+    (hr : E.factory (t.dv.getD noneId) s.ctx.fcalls.length (factoryArg t s.self) = .error e) :
+    (Model.Attr.step E t s .get).1 = { exc := some (surfaced E e) }
+    ∧ (Model.Attr.step E t s .get).2 =
+        { s with ctx := { s.ctx with fcalls := s.ctx.fcalls ++ [(t.dv.getD noneId, s.self, s.name)] } }
+    ∧ (Model.Attr.step E t s .get).2.slot = none
+    ∧ (Model.Attr.step E t s .get).2.ctx.log = s.ctx.log
+    ∧ (Model.Attr.step E t s .get).2.ctx.postLog = s.ctx.postLog
+    ∧ ((e ≠ .attributeError ∨ E.warnError = false) → surfaced E e = e)
+    ∧ (t.post = none →
+        let s1 := (Model.Attr.step E t s .get).2
+        (Model.Attr.step E t s1 .get).2.ctx.fcalls =
+          s.ctx.fcalls ++ [(t.dv.getD noneId, s.self, s.name), (t.dv.getD noneId, s.self, s.name)]
+        ∧ (∀ v, (defaultValueFor E t s.self s.name s1.ctx).1 = .ok v →
+            (Model.Attr.step E t s1 .get).1 = { val := some v } ∧ (Model.Attr.step E t s1 .get).2.slot = some v)
+        ∧ (∀ e2, (defaultValueFor E t s.self s.name s1.ctx).1 = .error e2 →
+            (Model.Attr.step E t s1 .get).1 = { exc := some e2 } ∧ (Model.Attr.step E t s1 .get).2.slot = none)) := by
+  obtain ⟨h1, h2⟩ := default_raises E t s e hk hu hs hr
+  refine ⟨by rw [h1], by rw [h1], by rw [h1]; exact hs, by rw [h1], by rw [h1], ?_, ?_⟩
+  · intro h
+    unfold surfaced
+    rcases h with h | h
+    · simp [h]
+    · simp [h]
+  · intro hp
+    rw [h1]
+    exact h2 hp _ rfl
+
 /-! ### Silent -/
 
 theorem getattro_log (E : Env) (t : TraitCore) (s : OSt) : (getattro E t s).2.ctx.log = s.ctx.log := by
@@ -366,6 +414,24 @@ example :
   simp only [List.mem_singleton] at hp
   subst hp
   exact ⟨_, rfl⟩
+
+/-- `x = Any(factory=f)` where `f` raises ValueError on its first call and returns a fresh `[3]` afterwards. -/
+def exEnvR : Env :=
+  { exEnv with factory := fun _ n _ => if n = 0 then .error .valueError else .ok (.fresh [.atom 3]) }
+
+/-- Non-vacuity of `C10_default_raises`, on the world model: the first read raises
+the factory's ValueError, stores nothing and calls nobody (a static handler is
+attached); the second read calls the factory again, returns the fresh object 11
+and stores it.  With an AttributeError and warnings-as-errors the caller sees
+the UserWarning (`Exc.other`) instead. -/
+example :
+    ((World.runTrace exEnvR exWorldF [.new 0, .get 0 0, .get 0 0]).map
+        (fun r => (r.1.exc, r.1.val, r.2.insts.map (fun o => o.dict), r.2.ctx.log, r.2.ctx.fcalls.length))
+       = [(none, some 10, [[]], [], 0), (some .valueError, none, [[]], [], 1), (none, some 11, [[(0, 11)]], [], 2)])
+    ∧ callsUser exCoreF
+    ∧ surfaced { exEnvR with warnError := true } .attributeError = .other
+    ∧ surfaced exEnvR .attributeError = .attributeError := by
+  refine ⟨by rfl, Or.inl rfl, by decide, by decide⟩
 
 /-- What `buildClass` produces for the subclass `x = [5]` (object 11) of `exBase`:
 a CONSTANT default holding object 11 itself. -/
